@@ -799,6 +799,11 @@ def drive_generic(env, g, b, h):
     call(g, 'get_nodes_on_shortest_path', node_a=b['server'], node_z=pick_id(env, allids), rel=A.REL_HAS)
     call(g, 'get_nodes_on_path_with_hops', node_a=b['server'], node_z=b['switch'], hops=[b['parent_cp']])
     call(g, 'get_nodes_on_path_with_hops', node_a=b['server'], node_z=pick_id(env, allids), hops=[], cut_off=rng.randint(1, 50))
+    # list arguments with one element, with several, and with the same element named twice
+    h1, h2 = pick_id(env, allids, 0), pick_id(env, allids, 0)
+    call(g, 'get_nodes_on_path_with_hops', node_a=b['server'], node_z=b['switch'], hops=[h1, h2])
+    call(g, 'get_nodes_on_path_with_hops', node_a=b['server'], node_z=b['switch'], hops=[h1, h2, h1])
+    call(g, 'get_nodes_on_path_with_hops', node_a=b['server'], node_z=b['switch'], hops=[h1, h1])
     # the same element named twice: an unusual but legal argument combination for every two-element operation
     same = pick_id(env, allids)
     call(g, 'get_nodes_on_shortest_path', node_a=same, node_z=same)
